@@ -13,6 +13,7 @@ from .units import (
     UNITS,
     check_quantified,
     compatible_units,
+    convert_units,
     equivalent_units,
     get_units,
     is_quantified,
@@ -81,7 +82,7 @@ def prepare(data, info, time_entries=1, force_copy=False, report_conversion=Fals
             )
         if not equivalent_units(data.units, units):
             units_converted = data.units, units
-            data = data.to(units)
+            data = convert_units(data, units)
         elif force_copy:
             data = data.copy()
     else:
